@@ -10,7 +10,7 @@ import tempfile
 import time
 
 from .. import mt, workloads
-from ..core import HOME, h64
+from ..core import HOME, StopShard, h64
 
 ID = 'C01'
 LEVEL = 'exploration'
@@ -164,8 +164,11 @@ def confirm_slow(ctx, case):
         ctx.note('cpu budget hit could not be confirmed: %r' % e)
         return
     if info['result'] == 'over-budget':
-        ctx.violation('does-not-terminate-within-budget', 'renderer=%s family=%s' % (case['renderer'], case['source']), case,
+        ctx.violation('does-not-terminate-within-budget', 'renderer=%s family=%s' % (case['renderer'], case['source'].split('<')[0]), case,
                       cpu_s=info['cpu_s'], budget_s=CPU_BUDGET_S)
+        ctx.count('outcome', 'termination-violation-confirmed')
+        if ctx.counters['outcome']['termination-violation-confirmed'] >= 2:
+            raise StopShard('2 confirmed non-termination witnesses (each costs the CPU budget twice)')
     else:
         ctx.count('outcome', 'cpu-budget-not-reproduced')
 
